@@ -46,8 +46,11 @@ theorem Step.local_congr (s : Step) (sh1 sh2 : Shared) (rest : List Step) (t : T
     have hb := Nm.eval_congr b sh1 sh2 (fun c hc => h c (by simp [Step.readCells, hc]))
     simp only [Step.local, ha, hb]
   | check n ok =>
-    have := Nm.eval_congr n sh1 sh2 (fun c hc => h c (by simpa [Step.readCells] using hc))
-    simp only [Step.local, this]
+    cases ok with
+    | true => rfl
+    | false =>
+      have := Nm.eval_congr n sh1 sh2 (fun c hc => h c (by simpa [Step.readCells] using hc))
+      simp only [Step.local, this]
   | _ => rfl
 
 /-- a step performs the same write from any two stores that agree on the cells it reads -/
@@ -527,7 +530,7 @@ theorem step_load_cell {P : Nat → Prop} {c : Nat} (h : P c) :
 
 theorem step_check_cell {P : Nat → Prop} {c : Nat} (ok : Bool) (h : P c) :
     (∀ x ∈ (Step.check (.cell c) ok).writeCells, P x) ∧ (∀ x ∈ (Step.check (.cell c) ok).readCells, P x) := by
-  simp [Step.writeCells, Step.readCells, Nm.cells, h]
+  cases ok <;> simp [Step.writeCells, Step.readCells, Nm.cells, h]
 
 theorem step_private {P : Nat → Prop} {s : Step} (hw : s.writeCells = []) (hr : s.readCells = []) :
     (∀ x ∈ s.writeCells, P x) ∧ (∀ x ∈ s.readCells, P x) := by
@@ -712,7 +715,9 @@ theorem Step.rename_writeCells (f : Nat → Nat) (s : Step) : (s.rename f).write
   cases s <;> rfl
 
 theorem Step.rename_readCells (f : Nat → Nat) (s : Step) : (s.rename f).readCells = s.readCells.map f := by
-  cases s <;> simp [Step.rename, Step.readCells, Nm.rename_cells]
+  cases s with
+  | check n ok => cases ok <;> simp [Step.rename, Step.readCells, Nm.rename_cells]
+  | _ => simp [Step.rename, Step.readCells, Nm.rename_cells]
 
 theorem writeCells_rename (f : Nat → Nat) (p : List Step) : ∀ c ∈ writeCells (renameProg f p), ∃ c0, c = f c0 := by
   intro c hc
@@ -883,5 +888,36 @@ theorem instStore_priv {N i : Nat} (hi : i < N) (sh : Shared) (c : Nat) : instSt
   have h3 : (c * N + i) / N = c := by
     rw [Nat.add_comm, Nat.add_mul_div_right _ _ hpos, Nat.div_eq_of_lt hi, Nat.zero_add]
   simp [h1, h2, h3]
+
+end Typedpy.Sched
+
+namespace Typedpy.Sched
+
+/-! ### flat OneOf / NotField read nothing effectively -/
+
+theorem oneOfFrom_reads (n : String) : ∀ os : List (Nat × Bool), readCells (progOneOfFrom (.const n) os) = [] := by
+  intro os
+  induction os with
+  | nil => rfl
+  | cons o rest ih =>
+    obtain ⟨c, ok⟩ := o
+    simp only [readCells] at ih
+    simp [readCells, progOneOfFrom, Step.readCells, Nm.cells, ih]
+
+theorem oneOf_reads (n : String) (v : Int) (os : List (Nat × Bool)) : readCells (progOneOf (.const n) v os) = [] := by
+  have h := oneOfFrom_reads n os
+  simp only [readCells] at h
+  simp only [progOneOf, readCells, List.flatMap_append, h, List.nil_append]
+  split <;> simp [Step.readCells, Nm.cells]
+
+theorem notField_reads (n : String) (v : Int) : ∀ os : List (Nat × Bool), readCells (progNotField (.const n) v os) = [] := by
+  intro os
+  induction os with
+  | nil => simp [readCells, progNotField, Step.readCells, Nm.cells]
+  | cons o rest ih =>
+    obtain ⟨c, ok⟩ := o
+    simp only [readCells] at ih
+    cases ok <;> simp [readCells, progNotField, Step.readCells, Nm.cells, ih]
+
 
 end Typedpy.Sched
